@@ -384,7 +384,13 @@ func (c *Cache) writeDump(w io.Writer) (int, error) {
 		if cacheExpirationTime.Before(now) {
 			return nil
 		}
-		msg, err := v.resp.Pack()
+		// Pack with name compression. Cached msgs have Compress unset and
+		// without compression a reply that was a legal (<= 64 KiB) msg on the
+		// wire can take more than dumpMaximumBlockLength, which readDump
+		// refuses. (Shallow copy: the cached msg is shared, do not modify it.)
+		m := *v.resp
+		m.Compress = true
+		msg, err := m.Pack()
 		if err != nil {
 			return fmt.Errorf("failed to pack msg, %w", err)
 		}
